@@ -172,12 +172,14 @@ def spCombine (U : Univ) (bind : Bool) (self other : Obj) : Res := do
 inductive Red where
   | npdot    -- `np.dot(self.v, other)`: equal lengths
   | npsub    -- `mse`: `_ensure_length_match` (SpaTypeError), then `self.v - other`
+  | npcmp    -- `compare`/`distance`: `_ensure_length_match` (SpaTypeError), then `np.dot(self.v, other) / scale`
 deriving DecidableEq
 
 def redLen (red : Red) (m n : Int) : Bool :=
   match red with
   | .npdot => m = n
   | .npsub => (bcast m n).isSome
+  | .npcmp => m = n
 
 /-- `SemanticPointer.dot/compare/mse` on a pointer-valued `other` (`Fixed` for `dot`,
 `SemanticPointer` for `compare`/`mse`). -/
@@ -187,7 +189,7 @@ def spScalar (U : Univ) (red : Red) (self other : Obj) : Res := do
     if r = .any then ensureAlg self other
     let (_, _, ol) ← evalFixed U o'
     if redLen red (selfLen self) ol then pure (.obj .npnum)
-    else .error (if red = .npsub then .spaType else .valueErr)
+    else .error (if red = .npdot then .valueErr else .spaType)
 
 /-- widths -/
 def tyWidth (U : Univ) : Ty → Option Int
@@ -475,10 +477,10 @@ def spadot (U : Univ) (a b : Obj) : Res :=
 def spMethod (U : Univ) (red : Red) (a b : Obj) : Res :=
   match a, b with
   | .ptr .., .ptr .. => spScalar U red a b
-  | .ptr _ _ l, .num => .ok (a, b, .obj (if red = .npdot then .arr l else .npnum))
-  | .ptr _ _ l, .npnum => .ok (a, b, .obj (if red = .npdot then .arr l else .npnum))
+  | .ptr _ _ l, .num => .ok (a, b, .obj (if red = .npsub then .npnum else .arr l))
+  | .ptr _ _ l, .npnum => .ok (a, b, .obj (if red = .npsub then .npnum else .arr l))
   | .ptr _ _ l, .arr n => if redLen red l n then .ok (a, b, .obj .npnum)
-      else .error (if red = .npsub then .spaType else .valueErr)
+      else .error (if red = .npdot then .valueErr else .spaType)
   | .ptr .., _ => .error .numpy
   | .sym _, _ => .error .attrErr
   | .dyn .., _ => .error .attrErr
@@ -507,9 +509,9 @@ def binop (U : Univ) : BinOp → Obj → Obj → Res
   | .mul => mul U
   | .matmul => matmul U
   | .dot => dotM U
-  | .compare => spMethod U .npdot
+  | .compare => spMethod U .npcmp
   | .mse => spMethod U .npsub
-  | .distance => spMethod U .npdot
+  | .distance => spMethod U .npcmp
   | .spadot => spadot U
   | .rshift => rshift U
 
